@@ -20,10 +20,6 @@ theorem C15_offsets (pre : Bytes) (es : List EntryParts) :
   obtain ⟨h1, h2⟩ := B.offsets pre es
   exact ⟨h1, h2⟩
 
-/-- the 9 marker-info bytes of a record: kind digit, 8-byte big-endian offset -/
-def recBytes (kind pos : Nat) : Bytes :=
-  (48 + kind) :: (List.range 8).map (fun i => (pos / 256 ^ (7 - i)) % 256)
-
 /-- the bytes of `file'` outside the recorded marker spans are those of `file` -/
 def AgreeOutside (recs : List (Nat × Nat)) (file file' : Bytes) : Prop :=
   file'.length = file.length ∧
